@@ -45,6 +45,21 @@ def agrees (p : Parsed) (m : WMsg) : Bool :=
     && decide (p.hdr.nau = m.authorities.length) && decide (p.hdr.nad = m.additionals.length)
     && decide (p.questions = m.questions) && decide (p.records = flat m)
 
+/-- the record's type is one the library decodes (anything the strict parser keeps opaque is skipped by `_read_record`) -/
+def supportedRec (r : WRecord) : Bool := match r.rdata with | .other _ => false | _ => true
+
+/-- the records `answers()` is expected to show for a strictly decoded message that may also carry records of
+unsupported types: those are skipped, the others come in packet order -/
+def flatSupported (m : WMsg) : List WRecord := ((m.answers ++ m.authorities ++ m.additionals).filter supportedRec).map canonRec
+
+/-- `agrees` for messages that may carry unsupported records: valid, the strict parser's header and questions, and the
+strict parser's records of supported types -/
+def agreesSupported (p : Parsed) (m : WMsg) : Bool :=
+  p.valid && decide (p.hdr.id = m.id) && decide (p.hdr.flags = m.flags)
+    && decide (p.hdr.nq = m.questions.length) && decide (p.hdr.nan = m.answers.length)
+    && decide (p.hdr.nau = m.authorities.length) && decide (p.hdr.nad = m.additionals.length)
+    && decide (p.questions = m.questions) && decide (p.records = flatSupported m)
+
 def msgNames (m : WMsg) : List WName :=
   m.questions.map (·.name) ++ (m.answers ++ m.authorities ++ m.additionals).flatMap (fun r => r.name :: rdataNames r.rdata)
 
